@@ -94,6 +94,11 @@ def getp(obj, key):
 
 
 def setp(obj, key, v):
+    if key.endswith("]"):
+        # an element of a scalar list, named by a constant subscript
+        j = key.rfind("[")
+        walk(obj, key[:j])[int(key[j + 1:-1])] = v
+        return
     i = max(key.rfind("."), -1)
     if i < 0:
         setattr(obj, key, v)
@@ -120,7 +125,7 @@ def read(obj, types):
 
 
 # ------------------------------------------------------------------------------------------------
-def gen_tree(d, max_rand_bits=11, callbacks=False):
+def gen_tree(d, max_rand_bits=11, callbacks=False, lists=False):
     """generate a tree program (classes listed children-first)"""
     classes = []
     counter = [0]
@@ -138,6 +143,9 @@ def gen_tree(d, max_rand_bits=11, callbacks=False):
             f["init"] = gen.rand_in_type(d, f)
             fields.append(f)
         c = {"name": name, "fields": fields, "subs": [], "objlists": [], "blocks": []}
+        if lists and d.chance(30):
+            # a small scalar list of its own: its elements are reached as  s0.lx[1]  /  arr[0].lx[1]
+            gen.add_list(d, fields, c, max_bits=sum(f["w"] for f in fields if f["rand"]) + 4, name="l" + "xyzw"[depth])
         if depth > 0:
             nsub = d.weighted([(1, 0), (2, 1), (3, 2)])
             child = None
@@ -166,7 +174,7 @@ def gen_tree(d, max_rand_bits=11, callbacks=False):
     while rand_bits() > max_rand_bits and guard < 40:
         guard += 1
         c = d.choice(classes)
-        fs = [f for f in c["fields"] if f["rand"]]
+        fs = [f for f in c["fields"] if f["rand"] and "[" not in f["name"]]
         if fs:
             f = max(fs, key=lambda f: f["w"])
             if f["w"] > 1:
